@@ -476,6 +476,46 @@ pub fn drive_cells(s: &mut Session, rng: &mut Rng, thorough: bool) {
     s.tick();
 }
 
+/// range end points of every argument (C17): finite values of any magnitude for times and sustain,
+/// the two ends of the sample-rate range, arbitrary call orders
+pub fn drive_extreme(s: &mut Session, rng: &mut Rng, runs: usize) {
+    let xs: [f32; 16] = [
+        0.0, -0.0, f32::MIN_POSITIVE, 1e-45, -1e-45, 1e-10, 0.001, 0.00099999, 20.0, 20.000002, 1e10, f32::MAX, f32::MIN, -1.0,
+        1.0, 0.5,
+    ];
+    let rates: [f32; 6] = [100.0, 100.00001, 191999.98, 192000.0, 44100.0, 12345.678];
+    for _ in 0..runs {
+        let fs = *rng.pick(&rates);
+        s.start(fs);
+        for _ in 0..(20 + rng.below(40)) {
+            match rng.below(9) {
+                0 => s.set_time('a', *rng.pick(&xs)),
+                1 => s.set_time('d', *rng.pick(&xs)),
+                2 => s.set_time('r', *rng.pick(&xs)),
+                3 => s.set_sustain(*rng.pick(&xs)),
+                4 => s.gate_on(),
+                5 => s.gate_off(),
+                _ => {
+                    let p = s.phase();
+                    if p == 1 || p == 2 || p == 4 {
+                        // a bounded number of ticks; long phases are skipped through
+                        let before = s.acc() as u64;
+                        s.tick();
+                        let inc = (s.acc() as u64).saturating_sub(before).max(1);
+                        if s.phase() == p && (16777216 / inc) > 200 {
+                            s.run_phase_sparse(10, inc);
+                        } else {
+                            s.run_phase(400);
+                        }
+                    } else {
+                        s.tick();
+                    }
+                }
+            }
+        }
+    }
+}
+
 pub fn rerun(lines: &[serde_json::Value], out: &mut Out) {
     let mut s = Session::new(out);
     for e in lines {
@@ -504,6 +544,7 @@ pub fn record(driver: &str, seed: u64, thorough: bool, out: &mut Out) -> Stats {
         "random" => drive_random(&mut s, &mut rng, if thorough { 2500 } else { 260 }),
         "durations" => drive_durations(&mut s, &mut rng, if thorough { 1500 } else { 120 }),
         "cells" => drive_cells(&mut s, &mut rng, thorough),
+        "extreme" => drive_extreme(&mut s, &mut rng, if thorough { 400 } else { 60 }),
         _ => {
             eprintln!("unknown adsr driver {}", driver);
             std::process::exit(2)
